@@ -117,6 +117,8 @@ class C13(runner.Check):
       if depth == 'service':
         sets = sets[:1] + sets[2:]
     seed = rng.randrange(1, 10**6) if rng.random() < 0.85 else rng.choice([0, 0, 1, 2**31 - 1])
+    if name in ('quasi', 'sgrid', 'eagle') and rng.random() < 0.1:
+      seed = rng.choice([2**32 - 1, 2**32 + 3, 2**40 + 1, 1759400000123456789])  # e.g. time_ns(), 64-bit hashes
     marathon = rng.random() < (0.012 if tier == 'quick' else 0.03)
     if marathon:
       # a long study: phases that only come late (eagle removes exhausted flies from a full pool and
